@@ -144,6 +144,10 @@ constexpr bool is_checked = P::template has_facet<policy::runtime_checks>;
 template<class P>
 constexpr bool is_ind = P::template has_facet<policy::indirect_vptr>;
 
+// id -> tables of the classes that had it at the last successful publish
+template<class P>
+static std::map<type_id, std::set<const std::uintptr_t*>> g_last_owner;
+
 // publishes `classes` through the real code, then checks the outcome.
 // returns false when a hash_search_error was reported.
 template<class P>
@@ -177,8 +181,46 @@ static bool publish_and_check(
             return true;
         }
     }
-    if (failed)
+    if (failed) {
+        // a reported search failure must not leave a hash installed that maps
+        // ids to the tables of other classes: with the checked variant every id
+        // is either reported as unknown or reaches a table of a class that has
+        // this id (in the set just presented or in the last published one)
+        if constexpr (is_checked<P>) {
+            std::map<type_id, std::set<const std::uintptr_t*>> owners = g_last_owner<P>;
+            for (auto& c : classes)
+                for (auto id : c.ids)
+                    owners[id].insert(c.vptr());
+            std::set<type_id> probes = probes_extra;
+            for (auto& o : owners)
+                probes.insert(o.first);
+            for (type_id u = 0; u < 64; ++u)
+                probes.insert(u);
+            for (auto u : probes) {
+                if (u == invalid_type)
+                    continue;
+                ++g_probes;
+                type_id idx;
+                try {
+                    idx = P::hash_type_id(u);
+                } catch (Thrown&) {
+                    continue;
+                }
+                bool ok = idx < P::vptrs.size() && owners.count(u) &&
+                    owners[u].count(P::vptrs[idx]);
+                if (!ok)
+                    cand("after a reported hash_search_error id " + std::to_string(u) +
+                         " is accepted and mapped to index " + std::to_string(idx) +
+                         (idx < P::vptrs.size() ? ", the table of another class"
+                                                : ", outside the vector"));
+            }
+        }
         return false;
+    }
+    g_last_owner<P>.clear();
+    for (auto& c : classes)
+        for (auto id : c.ids)
+            g_last_owner<P>[id].insert(c.vptr());
     // (i) perfect on registered ids
     std::map<type_id, size_t> used;
     std::set<type_id> registered;
@@ -273,6 +315,7 @@ static void reset_policy() {
     policy::fast_perfect_hash<P>::hash_min = 0;
     policy::fast_perfect_hash<P>::hash_max = 0;
     P::vptrs.clear();
+    g_last_owner<P>.clear();
     if constexpr (is_checked<P>)
         P::control.clear();
     if constexpr (is_ind<P>)
@@ -471,6 +514,15 @@ int main(int argc, char** argv) {
                     if (idx++ % nshards != shard)
                         continue;
                     run_any(pol, {{spec, b}, {spec, 100000}});
+                    // a successful update first: a failing search must not leave
+                    // parts of the previous hash behind
+                    int np = 0;
+                    for (const char* prior : {"rand:6:90", "arith:4096:16:30", "multi:4096:16:12"}) {
+                        if (!thorough && (np++ > 0 || (b != 1 && b != 8) || (idx / budgets.size()) % 3))
+                            continue;
+                        run_any(pol, {{prior, 100000}, {spec, b}});
+                        ++g_nontrivial;
+                    }
                     ++g_nontrivial;
                     if (shard == 0 && g_samples.size() < 5 && idx % 501 == 1)
                         g_samples.push_back(g_case);
